@@ -255,6 +255,7 @@ def prepend_rules(ctx, prog):
     P = 6
     ERANGE = 34
     problems = []
+    unknown = []      # things this run could not evaluate: they withhold the verdict, they are not findings
     ncalls = {"getcwd": 0, "writes": 0}
 
     def size_of(st, v):
@@ -278,7 +279,7 @@ def prepend_rules(ctx, prog):
         else:
             sz = one(args[0]) if isinstance(one(args[0]), int) else None
         if sz is None:
-            problems.append("allocation of a size this analysis cannot evaluate at %s" % site_of(fn, n))
+            unknown.append("allocation of a size this analysis cannot evaluate at %s" % site_of(fn, n))
         s2.res[("size", t)] = sz
         return [(failed(st, fn, n), fs("NULL")), (s2, fs(t))]
 
@@ -287,7 +288,7 @@ def prepend_rules(ctx, prog):
         cap = one(args[1])
         size, off, tok = size_of(st, args[0])
         if not isinstance(cap, int) or size is None or off != 0:
-            problems.append("getcwd(%s, %s): block or capacity not evaluable" % (show(args[0])[:40], show(args[1])))
+            unknown.append("getcwd(%s, %s): block or capacity not evaluable" % (show(args[0])[:40], show(args[1])))
         elif cap > size:
             problems.append("getcwd is given capacity %d for a block of %d bytes (%s)" % (cap, size, site_of(fn, n)))
         outs = [(with_errno(failed(st, fn, n), fs(I.abs_int(13))), fs("NULL"))]
@@ -303,8 +304,10 @@ def prepend_rules(ctx, prog):
                 outs.append((s2, args[0]))
         return outs
 
+    ARGV0 = fs(("addr", ("i", ("g", "argv0 bytes"), 0)))
+
     def m_strlen(I, fn, n, args, st):
-        if args[0] == fs(("str", "<argv0>")):
+        if args[0] == ARGV0:
             return [(st, fs(P))]
         if "cwdlen" in st.mon:
             return [(st, fs(I.abs_int(st.mon["cwdlen"])))]
@@ -315,9 +318,12 @@ def prepend_rules(ctx, prog):
         size, off, tok = size_of(st, args[0])
         ln = one(args[2])
         if size is None or not isinstance(off, int) or not isinstance(ln, int):
-            problems.append("memcpy(%s, .., %s): destination or length not evaluable" % (show(args[0])[:60], show(args[2])))
+            unknown.append("memcpy(%s, .., %s): destination or length not evaluable" % (show(args[0])[:60], show(args[2])))
         elif off + ln > size:
             problems.append("memcpy writes bytes %d..%d of a block of %d bytes (%s)" % (off, off + ln - 1, size, site_of(fn, n)))
+        if args[1] != ARGV0 or ln != P:
+            problems.append("what is appended is not the whole program path as given (source %s, %s bytes instead of the path's %d) (%s)"
+                            % (show(args[1])[:50], show(args[2]), P, site_of(fn, n)))
         return [(st, args[0])]
 
     def store_hook(I, fn, node, cell, val, st):
@@ -325,7 +331,7 @@ def prepend_rules(ctx, prog):
             ncalls["writes"] += 1
             size = st.res.get(("size", cell[1][1]))
             if not isinstance(cell[2], int) or size is None:
-                problems.append("store to element %s of a block: index not evaluable (%s)" % (cell[2], site_of(fn, node)))
+                unknown.append("store to element %s of a block: index not evaluable (%s)" % (cell[2], site_of(fn, node)))
             elif not (0 <= cell[2] < size):
                 problems.append("store to byte %d of a block of %d bytes (%s)" % (cell[2], size, site_of(fn, node)))
         return None
@@ -343,10 +349,13 @@ def prepend_rules(ctx, prog):
     I.TOP_INT = frozenset(I.K) | {"NEG", "POS"}
     st = State()
     for p_ in F.params:
-        st.mem[("v", F.gdid(p_["did"]))] = fs(("str", "<argv0>"))
+        st.mem[("v", F.gdid(p_["did"]))] = ARGV0        # a pointer to the first byte of the path: stepping it forward is visible
     res = I.run(F, [st])
     ctx.stats("E-ABS", I.stats)
     oks = [s_ for s_, rv in res.exits if rv != fs("NULL")]
+    if unknown and not problems:
+        ctx.floor_failures.append("C03.P4b: %s; the buffer arithmetic of path_prepend_cwd could not be followed, no verdict" % sorted(set(unknown))[0])
+        return
     ctx.ob("C03.P4b", "path_prepend_cwd: buffer sizes", "with the program path %d bytes long and getcwd() succeeding at once or after one or two "
            "growth steps - each time with the longest directory its capacity admits, and with a one-character one - getcwd is never told a "
            "capacity above the block it fills, and the separator, the copied path and the terminator all land inside the block" % P,
